@@ -1044,6 +1044,35 @@ func cgenChildSpans(ptr reflect.Value, s []byte, a, b int) []cgenSpan {
 	return out
 }
 
+// cgenDescendPlain: given that ct's decoder reproduces the failure on input in (whose
+// bytes are not an edit of ct's own seed encoding), find the innermost child decoder that
+// reproduces it when started at the offset its predecessor fields end in the seed layout.
+func cgenDescendPlain(ct *cgenType, ptr reflect.Value, in []byte, pred func(ct *cgenType, input []byte, seedPart []byte) (bool, string)) (string, string) {
+	name, key := "", ""
+	for depth := 0; depth < 8; depth++ {
+		var enc []byte
+		var err error
+		if p, _, _ := vlib.Guard(func() { enc, err = ct.Enc(ptr) }); p || err != nil {
+			return name, key
+		}
+		found := false
+		for _, sp := range cgenChildSpans(ptr, enc, 0, len(enc)) {
+			if sp.a > len(in) {
+				continue
+			}
+			if ok, k := pred(sp.sub.ct, in[sp.a:], enc[sp.a:sp.b]); ok {
+				ct, ptr, in = sp.sub.ct, sp.sub.ptr, in[sp.a:]
+				name, key, found = ct.Name, k, true
+				break
+			}
+		}
+		if !found {
+			break
+		}
+	}
+	return name, key
+}
+
 // cgenLocalise descends from the seed's top-level type into the innermost
 // sub-value whose decoder, fed the corresponding slice of the mutated string on
 // its own, still satisfies pred. Returns the codec type name of that decoder.
@@ -1072,19 +1101,25 @@ func cgenLocaliseKey(seed cgenSeed, m cgenMut, topKey string, pred func(ct *cgen
 		if m.Kind == "ins" {
 			delta = len(vlib.Unhex(m.Val))
 		}
-		for pass := 0; pass < 2 && !found; pass++ {
+		for pass := 0; pass < 3 && !found; pass++ {
 			for _, sp := range spans {
 				part := seed.enc[sp.a:sp.b]
 				var in []byte
-				if pass == 0 {
+				switch pass {
+				case 0:
 					if !(sp.a <= m.Pos && m.Pos < sp.b) {
 						continue
 					}
 					// the sub-decoder sees what it would see in context: the mutated string from
 					// the start of its own encoding to the end
 					in = w[sp.a:]
-				} else {
-					if sp.a <= m.Pos || m.Kind == "prefix" || sp.a+delta > len(w) {
+				case 1: // a later sibling, read from its original offset (fixed-size predecessors)
+					if sp.a <= m.Pos || m.Kind == "prefix" || sp.a > len(w) {
+						continue
+					}
+					in = w[sp.a:]
+				case 2: // a later sibling, read from its shifted offset
+					if sp.a <= m.Pos || m.Kind != "ins" || sp.a+delta > len(w) {
 						continue
 					}
 					in = w[sp.a+delta:]
@@ -1097,8 +1132,11 @@ func cgenLocaliseKey(seed cgenSeed, m cgenMut, topKey string, pred func(ct *cgen
 					cur, a, b, ptr = sp.sub.ct, sp.a, sp.b, sp.sub.ptr
 					key = k
 					found = true
-					if pass == 1 {
-						// the culprit decodes bytes that are not at the mutated position: stop here
+					if pass > 0 {
+						// the culprit decodes bytes that are not at the mutated position: descend no further
+						if sub, k2 := cgenDescendPlain(cur, ptr, in, pred); sub != "" {
+							return sub, k2
+						}
 						return cur.Name, key
 					}
 					break
